@@ -2,7 +2,7 @@
 
 PROPS = {
     "C01": {
-        "bin": "px_stream", "budget_ms": 30000, "wall_cap": {"quick": 600, "thorough": 2400},
+        "bin": "px_stream", "budget_ms": 30000, "wall_cap": {"quick": 600, "thorough": 1800},
         "rule": "stateless sequence exploration: every sequence of d tokens (d<=3) over the per-emulation alphabets (all 256 bytes, the complete CSI final x intermediate x parameter table, "
                 "ESC/DCS/OSC/APS/music/native command tokens, every proper prefix of every token) from every reachable start context (byte prefixes) on the listed screen sizes; plus long histories made small by the macro sub-language (a macro of 5000 empty sixel sequences invoked 12 times, a macro of 2000 small images invoked 20 times, 45000 empty sixel sequences without a macro: resources held per sequence must not add up); "
                 "non-trivial = the run produced at least one error value or panic; states = distinct observable end states (caret, terminal state, cells)",
@@ -12,7 +12,7 @@ PROPS = {
         "assumptions": ["a case cut by the per-case CPU/memory budget is counted as cut (C03's subject), not judged"],
     },
     "C02": {
-        "bin": "px_load", "budget_ms": 5000, "wall_cap": {"quick": 600, "thorough": 2400},
+        "bin": "px_load", "budget_ms": 5000, "wall_cap": {"quick": 600, "thorough": 1800},
         "rule": "seed files written by the engine's own writers for 13 extensions (3 documents, with/without SAUCE, 0/1/255 comments, compression on/off) plus hand-built streams, fonts (PSF1, PSF2, raw), TheDraw fonts and bundles, 5 palette formats, "
                 "bare SAUCE records, clipboard data and IcyDraw files kept as chunk lists; per seed every truncation point, a value menu at every header/tail byte, every 16/32-bit field (LE and BE) of the first 48 bytes set to extremes singly and in pairs, "
                 "IcyDraw chunk payload truncations / byte and field faults / reorderings / renames with the PNG container kept valid; every prefix <= 64 bytes of every seed under 24 extensions; all byte strings of length <= 2 under every extension and extractor; "
@@ -24,7 +24,7 @@ PROPS = {
         "assumptions": ["a case cut by the per-case CPU/memory budget is counted as cut (C03's subject), not judged"],
     },
     "C03": {
-        "bin": "px_cost", "parts": [{"bin": "px_cost"}, {"bin": "px_load"}], "budget_ms": 3000, "mem_cap_mb": 1024, "judge_budget": True, "wall_cap": {"quick": 600, "thorough": 2400},
+        "bin": "px_cost", "parts": [{"bin": "px_cost"}, {"bin": "px_load"}], "budget_ms": 3000, "mem_cap_mb": 1024, "judge_budget": True, "wall_cap": {"quick": 600, "thorough": 1800},
         "rule": "complete control-function table: CSI final 0x40..0x7E x 8 intermediates x parameter tuples of length 0..6 over {1,0,H,W,2^16,10^6,2^31-1} with <=2 (thorough <=3, full for <=4 parameters) "
                 "positions different from 1, in 5 start contexts (fresh, scrollback, top/bottom margins, all margins, and the non-terminal buffer the file loaders use) on 80x25 and 132x60, a second family 'state-setting command then work probe' (every row with <=1 parameter away from its default, resize / margin pairs of extremes, followed by 9 probes whose cost is bounded by the state left behind) in the terminal and the file-loader context; plus explicit shape lists (DCS macro repeat / recursion shapes, macros made of 64 / 4000 / 65535 commands that each do a screen of work (REP IL DL ICH DCH ECH SD SU DECFRA ED DECERA LF CUD RI, raster-only sixel images followed by cursor right / form feed / clear screen, printing in insert mode without autowrap), macros under huge ids followed by the macro-space reports, sixel raster/repeat/colour headers, Avatar repeat and goto byte pairs, "
                 "PSF1/PSF2/raw font payload headers, music/OSC/SGR numbers); per case CPU, peak heap and allocation-scaling are measured in the worker; non-trivial = the input made the engine allocate",
@@ -34,7 +34,7 @@ PROPS = {
         "assumptions": ["boundedness is judged by a fixed budget on two screen sizes, not by fitting a polynomial"],
     },
     "C04": {
-        "bin": "px_text", "budget_ms": 30000, "wall_cap": {"quick": 600, "thorough": 2400},
+        "bin": "px_text", "budget_ms": 30000, "wall_cap": {"quick": 600, "thorough": 1800},
         "rule": "documents: all rows of width 1..=3 (thorough 4) over an 8-cell alphabet with SAUCE carrying the width (also as 1- and 2-row documents); width 80 rows prefix(<=2 cells).filler.suffix(<=2 cells) with 3 fillers (runs starting at column 0 and ending at 78/79); "
                 "all ordered pairs of a ~28-cell extended alphabet (RGB and xterm colours, bold flag, bright backgrounds, every extended attribute the writer emits, blank variants 0/255, control characters under IcyTerm handling) under 27 (screen preparation x control handling x colour mode) x 5 encoding variants; "
                 "runs of length 1..=8 of every extended cell at four row placements under these vectors (+ repeat sequences without cursor forward); a 9-row core set under every one of the 6912 option vectors; framed rows at SAUCE widths 81 / 100 / 132; framed rows and all ordered pairs of 24 cells under 3 palettes whose colours sit at other positions (entry 0 blue / an RGB colour, DOS colours permuted) x 3 colour modes; cells with a blink flag in ice colour buffers; rows starting with the characters EF BB BF; text rows separated by 1..58 rows of blanks in several attributes (written as cursor movements), bold cells of every dark colour under a palette whose bright entries differ from the DOS ones, a canvas one row taller than its layer; the row families under every vector within 1 (thorough 2) option of the default; heights {1,2,25,60} x widths {1,2,79,80,81,132}. oracle: same character, displayed fg (non-blank glyphs), bg and blink per cell",
@@ -44,7 +44,7 @@ PROPS = {
         "assumptions": [],
     },
     "C15": {
-        "bin": "px_text", "budget_ms": 30000, "wall_cap": {"quick": 600, "thorough": 2400},
+        "bin": "px_text", "budget_ms": 30000, "wall_cap": {"quick": 600, "thorough": 1800},
         "rule": "per format (avt, pcb, msg, an1, asc, ata): prefix(<=2, thorough 3).filler.suffix rows over an 8-cell alphabet at width 80 (40 for ATASCII), every row length 0..=width at heights {1,2,25,40} with a non-empty last row, "
                 "every printable character (single and doubled, minus each format's lead-in characters; ATASCII: minus ESC and the four cursor codes only, every character also inverse and between inverse / normal neighbours), documents that start like a UTF-8 byte order mark and are valid UTF-8, every ordered pair of (fg 0..15, bg 0..7) attributes, all three screen preparations",
         "level_text": "every document of the stated small scope is written by the real writers, parsed by the real loaders and compared cell by cell",
@@ -53,7 +53,7 @@ PROPS = {
         "assumptions": [],
     },
     "C05": {
-        "bin": "px_binfmt", "budget_ms": 30000, "wall_cap": {"quick": 600, "thorough": 2400},
+        "bin": "px_binfmt", "budget_ms": 30000, "wall_cap": {"quick": 600, "thorough": 1800},
         "rule": "per format (xb, bin, adf, idf, tnd): dimension menus combined with <=2 (thorough 3) deviations from a base document (XBin: 7 widths x 6 heights x 7 font set-ups x palette x blink/ice x compression), "
                 "pair sweeps in which every (character, attribute byte) pair occurs, all rows of width <=3 over an 8-cell alphabet; each document saved by the real writer, loaded by the real loader and compared cell by cell, "
                 "and the saved bytes decoded by independent decoders written from the specification files (XBin, BIN, ADF, IDF); 17 special documents per format (canvas larger than its layer, layer moved off, bold on every colour, default font edited in place, SAUCE width limit); the loaded colour mode is compared exactly (blink / ice, not the third mode); re-save stability over every truncation / header corruption / 16-bit field extreme of 14 seed files, incl. a save with default options - a writer that refuses a file its loader accepted is a violation",
@@ -63,7 +63,7 @@ PROPS = {
         "assumptions": ["reference decoders were written from doc/FileFormats (x_bin.htm, ArtworxDataFormat.txt, idv_103.pas)"],
     },
     "C06": {
-        "bin": "px_binfmt", "budget_ms": 30000, "wall_cap": {"quick": 600, "thorough": 2400},
+        "bin": "px_binfmt", "budget_ms": 30000, "wall_cap": {"quick": 600, "thorough": 1800},
         "rule": "all rows of width 1..=5 (thorough 6) over 3 chars x 3 attributes x 2 font pages, all rows of width 6..=7 (thorough 9) over a 2x2x2 alphabet, rows of width 60..=70 and 124..=135 that are concatenations of <=3 runs of 4 kinds at every "
                 "listed split point (both sides of the 64-cell limit), identical adjacent rows; each row saved compressed and uncompressed by the real writer, both loaded by the real loader, the compressed stream decoded by a decoder written from x_bin.htm; second generation (the loaded picture saved compressed again through the spec decoder); 24 documents built in several steps (second opaque / alpha / hidden layer, moved base layer)",
         "level_text": "every row of the stated alphabets and widths is encoded by the real compressor; both encodings are decoded by the real loader and the compressed stream by an independent spec decoder",
@@ -72,7 +72,7 @@ PROPS = {
         "assumptions": [],
     },
     "C08": {
-        "bin": "px_editor", "budget_ms": 30000, "wall_cap": {"quick": 600, "thorough": 2400},
+        "bin": "px_editor", "budget_ms": 30000, "wall_cap": {"quick": 600, "thorough": 1800},
         "rule": "every history of length <=2 (thorough <=3) over ~100 operation instances (every public editing operation with in-range and boundary arguments, selection set-up, current-layer / caret set-up steps, atomic groups incl. nesting) "
                 "on 7 start documents (1 layer; offset alpha layer; hidden + locked layers; a shrunk layer with hidden content; custom palette + second font + chars layer + SAUCE; a tall layer with lazily stored rows and the caret on its last row; "
                 "an alpha locked current layer + 3 fonts + a SAUCE record whose size fields differ from the buffer), plus 576 explicit histories one step longer than the searched depth (optional clear_layer; an operation recorded as a layer snapshot; a row / column operation; an operation whose redo puts back cloned layers) whose undo / redo walks change the physical row storage between a redo and the next undo; per history: undo step by step down to the start comparing an observational "
@@ -83,7 +83,7 @@ PROPS = {
         "assumptions": [],
     },
     "C09": {
-        "bin": "px_stream", "budget_ms": 1500, "wall_cap": {"quick": 600, "thorough": 2400},
+        "bin": "px_stream", "budget_ms": 1500, "wall_cap": {"quick": 600, "thorough": 1800},
         "rule": "same explorer as C01 minus text-area resize tokens, plus every token pair repeated until 3*H line changes happened (deterministic replacement of the random scrollback-filling streams); a stratum of control sequences with resize-like parameters ended by every byte except t, followed by every printable byte (by the grammar of control sequences none of them requests a resize: a resize there is a violation); "
                 "invariant monitor after every character; non-trivial = the run produced at least one error value; states = distinct observable end states",
         "level_text": "invariant (cursor inside the visible window; fixed 40x24 grid for Viewdata/Mode 7) evaluated after every character of every explored sequence on the real parsers",
@@ -92,7 +92,7 @@ PROPS = {
         "assumptions": ["a case cut by the per-case CPU/memory budget is counted as cut (C03's subject), not judged"],
     },
     "C07": {
-        "bin": "px_icy", "budget_ms": 30000, "mem_cap_mb": 2048, "wall_cap": {"quick": 600, "thorough": 2400},
+        "bin": "px_icy", "budget_ms": 30000, "mem_cap_mb": 2048, "wall_cap": {"quick": 600, "thorough": 1800},
         "rule": "documents: a two-layer base document varied in every single dimension, every pair of dimensions and every triple of dimensions (quick: the triples with <=100 combinations; thorough: all 255 000 triples) over 19 dimensions - layer count 1..=6, layer size "
                 "{0x0,1x1,2x2,3x1,200x2,1x120,0x2,2x0,200x120}, offsets {-50,-1,0,2,50}, all 32 flag combinations of a normal and of the base layer, 3 modes, colour tag, transparency {0,1,255}, default font page {0,255,300} (with and without a font in that slot), image layers (a picture at offsets (0,0) (1,1) (-1,0) (3,2) (0,-1); role image with its picture removed; a picture and visible cells on the same layer - the one listed known finding), "
                 "titles (empty, Unicode incl. astral, 300 chars, embedded NUL), 5 buffer types, 3 ice modes, 4 palette modes, 4 font modes, palettes of 16/1/17/300 colours, font slots {0}/{0,1}/{0,255,300}/{0: default font edited in place}/{5} only with every cell on page 5/{0: a font declaring 9 pixels width}, a palette with equal neighbouring entries, SAUCE none/plain/with comments and a 1996 date (the date is compared), "
@@ -104,7 +104,7 @@ PROPS = {
         "assumptions": [],
     },
     "C10": {
-        "bin": "px_unicode", "parts": [{"bin": "px_unicode"}, {"bin": "px_icy"}], "budget_ms": 20000, "wall_cap": {"quick": 600, "thorough": 2400},
+        "bin": "px_unicode", "parts": [{"bin": "px_unicode"}, {"bin": "px_icy"}], "budget_ms": 20000, "wall_cap": {"quick": 600, "thorough": 1800},
         "rule": "complete value domains: fill-rectangle character parameter (quick: all values < 2^22 plus every 2^k, 2^k+-1, surrogate / 0x10FFFF boundaries and the saturation values; thorough: all 2^31 reachable values), "
                 "all 65536 16-bit clipboard character values, PSF2/PSF1/raw glyph tables up to 2^17 glyphs, all 256^2 hex macro byte pairs (macro invoked), IcyDraw long-form cell character fields (surrogate bounds, every 2^k and 2^k+-1 for k=8..31, values beyond U+10FFFF; in a first and in a continuation chunk) and every 1-byte and ~4400 2-byte strings as layer title and font name in hand-built IcyDraw chunk streams behind headers of every buffer type; DECFRA values around the surrogate range / the font table end / U+10FFFF with a 2^17 glyph font loaded by DCS and selected; every Unicode scalar as first and as second character of a hex macro pair; "
                 "non-trivial = batch touches the surrogate range / hex digits / a glyph table",
@@ -114,7 +114,7 @@ PROPS = {
         "assumptions": ["characters are inspected through `ch as u32` in an optimised build without debug assertions"],
     },
     "C11": {
-        "bin": "px_sauce", "budget_ms": 30000, "wall_cap": {"quick": 600, "thorough": 2400},
+        "bin": "px_sauce", "budget_ms": 30000, "wall_cap": {"quick": 600, "thorough": 1800},
         "rule": "per writer that appends SAUCE (ans, asc, avt, pcb, bin, xb, tnd, adf, idf, icy): title/author/group of every length 0..=LEN, LEN+1, LEN+5 x 7 content classes (letters, trailing blank, trailing NULs, inner NUL, leading blank, "
                 "high CP437 / control glyphs, all blanks); every comment count 0..=255 (line lengths cycling 0..=64, lines carrying SAUCE00 / COMNT / EOF bytes); every comment line length 0..=64, 65, 70 x 7 classes as only / second line; "
                 "all 8 flag combinations x (no font + the 16 SAUCE font names), also with an attached record that disagrees with the buffer about ice colours; second generation in the same format and cross-format second generation (saved as X, loaded, saved as every other format Y, loaded); every width 1..=1000 the format can hold (bin / idf: every width 1..=510, odd ones included - a width the BinaryText record cannot store has to be refused by the writer); letter spacing / aspect ratio expected from the ANSi, ASCII and BinaryText variants; an empty title / author / group comes back empty; split: engine-written and hand-made contents (empty, 1 byte, 127/128/129 bytes, endings CR LF / EOF / SAUCE00 / COMNT / EOF SAUCE, "
@@ -125,7 +125,7 @@ PROPS = {
         "assumptions": ["string contents are 7 classes per length, not all 256^LEN strings"],
     },
     "C12": {
-        "bin": "px_layers", "budget_ms": 30000, "wall_cap": {"quick": 600, "thorough": 2400},
+        "bin": "px_layers", "budget_ms": 30000, "wall_cap": {"quick": 600, "thorough": 1800},
         "rule": "every glyph 0..255 of every built-in font page 0..=42 as the middle cell of 3-cell rows with neighbours from {0, 32, 255, 219, 'A'}, 8 colour contexts (incl. bright, equal fg/bg and an extra palette colour), bold on/off, "
                 "both settings of normalize_whitespaces; every glyph that is blank in its own page between cells of another font page (every page x 3 other pages); all stacks of 2 (thorough 3) layers of the small layer menu (alpha / offset / hidden / chars / attributes layers) above a base layer in 6 states (plain, hidden, locked, moved, alpha, only its first row stored) and below a small floating layer low in the document for the flattening step; a copy of each page font with its blank glyphs edited in place (stale checksum) next to the original; 8 special documents (colours encoded as RGB values incl. RGB black x bold x 5 glyph kinds on an alpha / opaque layer, with / without an alpha layer beneath, with / without a default font page of another cell height, unfilled last row and column); "
                 "oracle: byte-identical render_to_rgba of input and ColorOptimizer::optimize(input), same size. non-trivial = one middle glyph / one stack",
@@ -135,7 +135,7 @@ PROPS = {
         "assumptions": [],
     },
     "C13": {
-        "bin": "px_layers", "budget_ms": 30000, "wall_cap": {"quick": 600, "thorough": 2400},
+        "bin": "px_layers", "budget_ms": 30000, "wall_cap": {"quick": 600, "thorough": 1800},
         "rule": "all stacks of 1 and 2 layers over the rich layer menu (3 sizes x 4 offsets x 3 modes x alpha x visible x up to 15 contents incl. transparent-colour half blocks, visible NUL and invisible cells) and all stacks of 3 (thorough 4) layers over the small menu; "
                 "laws L1-L10 (L1: empty alpha layer of every mode and with its own default font page anywhere; L4: an opaque layer of every mode hides what is beneath; L6: a layer placed with set_offset after a preview offset; L7: row storage - trailing rows not stored / rows stored beyond the height; L8: topmost first among chars / attributes layers; L9: invisible cells of alpha layers that hold a character, colours and other flags; L10: the visible cell of a topmost normal layer is shown, every colour of it that is not the transparent colour; L11: the layers beneath any split point can be replaced by one layer that holds what they display) and the reference compositor R evaluated on every stack at every position of the bounding box + 2 cells; non-trivial = the stack shows at least one visible cell",
         "level_text": "the complete small scope of layer stacks is composited by the real Buffer::get_char and checked against metamorphic stacking laws and a reference compositor transcribed from the statement",
@@ -144,7 +144,7 @@ PROPS = {
         "assumptions": [],
     },
     "C14": {
-        "bin": "px_sixel", "budget_ms": 20000, "case_wall_ms": 60000, "judge_budget": True, "wall_cap": {"quick": 600, "thorough": 2400},
+        "bin": "px_sixel", "budget_ms": 20000, "case_wall_ms": 60000, "judge_budget": True, "wall_cap": {"quick": 600, "thorough": 1800},
         "rule": "payloads: every string of <=5 (thorough 6) tokens over a 16-token sixel alphabet through Sixel::parse_from (oracles: 4wh bytes; one declaration before the data -> the image is the data rectangle or the declared rectangle, not a mix; a three parameter declaration declares the width only; without declaration every set pixel is inside); schedules: every interleaving of in-order arrivals, "
                 "any-order completions (decode threads held at the cfg gate and released one by one) and 0..P polls in every gap for k<=4 images in flight x image-to-arrival assignments, "
                 "the count cross-checked against an independent DP; oracle after every poll against a sequential reference model, incl. the returned updated flag against what the poll put on the screen; the same images as an .ans file (every arrival order of 1..=4 images): image layers bottom to top in arrival order; non-trivial = payload sets at least one pixel / every schedule",
@@ -154,7 +154,7 @@ PROPS = {
         "assumptions": ["font cell is 8x16 px (default font) for the covering relation", "a poll whose thread sleeps for 3 s without interruption while a decode is still held, and that then comes back with that decode, counts as blocking"],
     },
     "C16": {
-        "bin": "px_palette", "budget_ms": 20000, "wall_cap": {"quick": 600, "thorough": 2400},
+        "bin": "px_palette", "budget_ms": 20000, "wall_cap": {"quick": 600, "thorough": 1800},
         "rule": "histories: every sequence of <=4 operations over 18 insert/set instances (a colour already present, new colours, indices 0, 5, len, len+2) from 4 start palettes (empty, DOS 16, 300 colours with a duplicate, named colours), "
                 "oracle after every step; every sequence of <=3 (thorough 4) colour-selecting control functions (incl. OSC 4 slot redefinition of slots 1, 16, 17 and 255, the 16 colour SGR codes, and 15 malformed colour requests - no index, empty index, index beyond the table, components above 255, a selector that is neither foreground nor background - which must leave palette and current colours as they are) through the real ANSI parser with a character printed after each (earlier cells must keep their colour); "
                 "files: 5 formats x (n=1: all 343 colours over 7 levels x 8x8 title/description texts (two of them with line breaks followed by what looks like a colour line) x 2 authors x names on/off; n in {0,2,16,17,256,300} x 8 descriptions x names on/off; thorough: all 2^24 colours) ; all 64^3 six-bit colours",
@@ -164,7 +164,7 @@ PROPS = {
         "assumptions": [],
     },
     "C17": {
-        "bin": "px_fonts", "budget_ms": 30000, "wall_cap": {"quick": 600, "thorough": 2400},
+        "bin": "px_fonts", "budget_ms": 30000, "wall_cap": {"quick": 600, "thorough": 1800},
         "rule": "bitmap fonts: every height 1..=32 x (6 (thorough 12) synthetic seeds whose glyph rows take every byte value, a rotation font, constant fonts 0x00/0xFF/0x1B/0x36) + every built-in font page 0..=42 + the default glyphs under another name with a glyph edited in place + fonts whose first glyph starts with the PSF1 / PSF2 magic numbers (3 kinds x every height) + the 16 SAUCE fonts, each through "
                 "PSF2 (incl. rewrite stability), raw data via create_8 / from_basic / from_bytes, the DCS font sequence into slots 0/1/42/255 through the ANSI parser and a slot redefined three times within one session, also directly after other string-type sequences (macro, sixel, OSC, APS), XBin (1 and 2 fonts, compressed and not), ADF, IDF and IcyDraw (1 and 2 fonts), and ADF / IDF / XBin documents whose cells all use font page 1 (refused, or the font of that page comes back); "
                 "512-glyph PSF2 fonts of every height; TheDraw: every glyph size 1..=30 x 1..=12 x 3 types x 4 row styles, every number 0..=94 of defined glyphs x 3 placements x 3 types, names of 0..=12 characters, spacing 0..=40, "
@@ -195,7 +195,7 @@ PROPS = {
         "assumptions": ["reference = bit-at-a-time polynomial division written in the harness (0x1021 MSB-first init 0; 0xEDB88320 LSB-first init ~0, final inversion)"],
     },
     "C20": {
-        "bin": "px_gfx", "budget_ms": 60000, "case_wall_ms": 10000, "judge_budget": True, "mem_cap_mb": 2048, "wall_cap": {"quick": 1200, "thorough": 3000},
+        "bin": "px_gfx", "budget_ms": 60000, "case_wall_ms": 10000, "judge_budget": True, "mem_cap_mb": 2048, "wall_cap": {"quick": 1200, "thorough": 2400},
         "rule": "RIPscrip: every command of the level-0 / level-1 / level-9 tables (+ unknown commands) x parameter strings of every length 0..=24 over {0,1,Z}: all strings up to length 5 (thorough 8) and, beyond, the three constant strings with <=1 (thorough 2) positions changed, "
                 "in the initial state; the deviation-bounded part in 7 further start contexts (small / inverted viewport, xor + user line + user fill pattern, saved image, vertical font + text window, changed palette, button style); 6 terminators; text commands x 25 text tails "
                 "(text variables, button label separators, continuation lines, icon file names) x numeric prefix lengths 0..=12; all ordered command pairs x 9 digit fills; every command followed by 14 well-formed drawing probes; a continuation backslash at every position of every parameter string; flood fills from an 8x6 grid over 7 scenes with obstacles x 6 fill styles x 3 borders and inside 6 viewports (beyond the screen, small, lower right, inverted, one pixel). "
